@@ -1426,7 +1426,7 @@ func main() {
 	}
 	dispatch(race)
 	run.Finish("c12case",
-		"mutation-id histories (allocations crossing stride boundaries, kills at the stride write before/after, idle kills, killed restarts, configured minimum), label histories (nextlabel, maxlabel, solid-block ingests awaited, kills inside an allocation after 0/1/2 persistence writes, idle kills, restarts), id histories (repos, instances, versions with kills inside id-allocating requests); distinct by (kind, event count, issued count / trace)",
+		"mutation-id histories (allocations crossing stride boundaries, kills at the stride write before/after, idle kills, killed restarts, configured minimum), label histories (nextlabel, maxlabel, solid-block ingests awaited, kills inside an allocation after 0/1/2 persistence writes, idle kills, restarts), id histories (repos, instances, versions with kills inside id-allocating requests), kill histories (POST blocks killed before/after the Put of MaxLabel[v], of MaxRepoLabel, of the block; POST maxlabel killed at each Put; the volume read back after each restart); distinct by (kind, event count, issued count / trace)",
 		tail)
 }
 
